@@ -161,6 +161,13 @@ func emitClient(c *Ctx, depth int, steps []string) string {
 					}
 				}
 			}
+			if strings.Contains(part, " legal=0 ") {
+				if strings.Contains(part, " same=1") {
+					c.Count("client.VIOLATES:move-illegal-in-the-caller's-position-although-the-engine-held-that-position")
+				} else {
+					c.Count("client.move-illegal-in-the-caller's-position(engine-held-another:non-default-config)")
+				}
+			}
 			for _, f := range res {
 				if strings.HasPrefix(f, "same=") {
 					c.Count("client.engine-position." + f)
